@@ -173,6 +173,9 @@ func c11GenPool(r *mon.Rng) *c11Pool {
 			}
 		}
 	}
+	// every fourth generated family holds its types the way an API definition does: all types
+	// added to every type, and the type objects are used as schemas themselves
+	fam.FullReg = r.Chance(1, 4)
 	p.Families = append(p.Families, fam)
 	dg := gen.NewDocs(s, r.Fork())
 	for k := 0; k < 2; k++ {
@@ -343,7 +346,7 @@ func c11ShrinkPool(p *c11Pool, ops []c11Op, kind string) c11Shrunk {
 	usedFam, usedDoc, usedEnum, usedRe := map[int]bool{}, map[int]bool{}, map[int]bool{}, map[int]bool{}
 	for _, o := range ops {
 		switch o.On.Kind {
-		case "schema":
+		case "schema", "type":
 			usedFam[o.On.Fam] = true
 			if o.Op == "Validate" {
 				usedDoc[o.Doc] = true
@@ -385,7 +388,7 @@ func c11ShrinkPool(p *c11Pool, ops []c11Op, kind string) c11Shrunk {
 	nops := make([]c11Op, len(ops))
 	for i, o := range ops {
 		switch o.On.Kind {
-		case "schema":
+		case "schema", "type":
 			o.On.Fam = famMap[o.On.Fam]
 			if o.Op == "Validate" {
 				o.Doc = docMap[o.Doc]
@@ -579,6 +582,9 @@ func c11RunRandom(c *mon.Ctx, per int) {
 			}
 			if ops[i].Op == "Validate" {
 				ops[i].Pre = r.Chance(1, 4)
+			}
+			if ops[i].On.Kind == "doc" && ops[i].Op == "Next3" {
+				ops[i].Doc = r.Range(1, 9) // the cursor stops after that many lexemes
 			}
 		}
 		c.Count("random histories (length 2..12)", 1)
